@@ -226,6 +226,30 @@ pub fn wdec(ctx: &mut Ctx, plan: DecPlan) {
     }
     if plan.both_keys && !cfg!(miri) {
         both_keys(ctx);
+        // byte-value sweeps and ground signatures (special byte values inside keys, values, signatures)
+        for (i, scheme) in [Scheme::Secp, Scheme::Ed, Scheme::Toy].into_iter().enumerate() {
+            if !ctx.mine(1000 + i as u64) {
+                continue;
+            }
+            let key = pool(scheme)[0];
+            for (cls, m) in gen::byte_sweep(&key) {
+                judge_input(ctx, cls, &m, nt);
+            }
+        }
+        for g in 0..(if ctx.quick() { 8u64 } else { 64 }) {
+            if !ctx.mine(2000 + g) {
+                continue;
+            }
+            let mut r = rng_for(ctx.seed, &["ground"], g);
+            let rec = gen::random_valid(&mut r, pool(Scheme::Secp));
+            for (cls, m) in gen::ground_signatures(&rec, 4000) {
+                judge_input(ctx, cls, &m, t);
+                // and its high-S twin / bit flips of the signature
+                for f in gen::bit_flips(&m).skip(16).take(64 * 8) {
+                    judge_input(ctx, "bit-flip", &f, nt);
+                }
+            }
+        }
     }
     if plan.tag_sweep && !cfg!(miri) {
         tag_sweep(ctx);
